@@ -166,11 +166,21 @@ func (g *schemaGen) fieldReq(parent string, ftype string, args []ArgSpec) []stri
 	return need
 }
 
+func (g *schemaGen) argDefaults(args []ArgSpec) []string {
+	var out []string
+	for _, a := range args {
+		if g.r.Chance(1, 2) {
+			out = append(out, a.Name)
+		}
+	}
+	return out
+}
+
 func (g *schemaGen) genField(parent string, name string) FieldSpec {
 	t := wrap(g.r, g.outputBase(), true)
 	args := g.genArgs()
 	// deprecation is drawn independently of the required features: a field can be both
-	return FieldSpec{Name: name, Type: t, Args: args, Req: g.fieldReq(parent, t, args), Deprecated: g.r.Chance(1, 5)}
+	return FieldSpec{Name: name, Type: t, Args: args, ArgDefaults: g.argDefaults(args), Req: g.fieldReq(parent, t, args), Deprecated: g.r.Chance(1, 5)}
 }
 
 func genSpec(r *hx.Rand) *Spec {
@@ -263,6 +273,10 @@ func genSpec(r *hx.Rand) *Spec {
 			for j, n := 0, r.Range(1, 3); j < n; j++ {
 				ft := wrap(r, g.inputBase(t.Name), r.Chance(1, 4))
 				t.Inputs = append(t.Inputs, ArgSpec{Name: fmt.Sprintf("k%d", j), Type: ft})
+				if r.Chance(1, 2) {
+					// with and without defaults: the construction rules must not depend on them
+					t.InputDefaults = append(t.InputDefaults, fmt.Sprintf("k%d", j))
+				}
 				if !g.careless("input") {
 					t.Req = union(t.Req, g.typeReq(ft))
 					g.req[t.Name] = t.Req
